@@ -62,6 +62,7 @@ class DirectoryMatcher:
         Returns:
             Tuple of (matches, depth) where depth is directory nesting level
         """
+        dir_path = str(dir_path)  # a key such as 2024 is a number when it comes from YAML
         if dir_path == "/":
             return self._check_root_match(dir_path, path_str)
         # Component-wise containment: rule "src" covers "src/a.py" but not "srcx/a.py"
